@@ -20,7 +20,7 @@ try:
     r = sh("git -C /repo worktree add -q %s HEAD" % wt)
     assert r.returncode == 0, r.stdout
     src = open(demo).read()
-    src = re.sub(r"/tmp/mut/C\d+", wt, src)
+    src = re.sub(r"/tmp/mut2?/C\d+", wt, src)
     dpath = os.path.join(wt, "_demo.py")
     open(dpath, "w").write(src)
     env = dict(os.environ); env["PYTHONPATH"] = wt; env["PYTHONDONTWRITEBYTECODE"] = "1"
@@ -40,6 +40,8 @@ try:
     out["confirmed"] = (r0.returncode == 0 and ra.returncode == 0 and r1.returncode != 0 and rb.returncode == 0)
     out["checks"] = {}
     for c in checks:
+        if c == "none":
+            continue
         t0 = time.time()
         env2 = dict(os.environ); env2["VERIF_REPO"] = wt
         rc = sh("cd /verif && timeout 3000 ./vcheck %s --tier %s" % (c, tier), env=env2)
